@@ -46,6 +46,30 @@ Theorem C10_score : forall c name ct content clock mtime s line s' i,
 Proof. exact score_step. Qed.
 Print Assumptions C10_score.
 
+(* the entry's modification time after an accepted comment is the article file's mtime after the append (the clock
+   reading the file system gave it) - for EVERY stamp the entry carried before, earlier or later than that reading *)
+Theorem C10_modified_is_file_mtime : forall c name ct content clock mtime s line s' i,
+  recommend c name ct content clock mtime s = COk line s' ->
+  find_entry (s_dir s) name (length (s_dir s) / REC_SZ) = Some i ->
+  0 < mtime ->
+  rec_modified (rec_at (s_dir s') i) = le32 mtime.
+Proof. exact modified_is_mtime. Qed.
+Print Assumptions C10_modified_is_file_mtime.
+
+(* a clock reading EARLIER than the stamp stored in the entry (the host clock was stepped back, or the entry was stamped
+   by a host whose clock runs ahead; stamp_entry/stamp_named in Model/C10.v plant such a stamp, op 4 of the drivers):
+   the comment is appended, the score moves to clamp(old + delta) and Modified becomes the file's mtime all the same *)
+Theorem C10_clock_behind_stamp : forall c name ct content clock mtime s line s' i stamp,
+  recommend c name ct content clock mtime s = COk line s' ->
+  find_entry (s_dir s) name (length (s_dir s) / REC_SZ) = Some i ->
+  rec_modified (rec_at (s_dir s) i) = le32 stamp -> 0 < mtime < stamp ->
+  -100 <= rec_score (rec_at (s_dir s) i) <= 100 ->
+  s_art s' = s_art s ++ line /\
+  rec_score (rec_at (s_dir s') i) = clamp (rec_score (rec_at (s_dir s) i) + delta ct) /\
+  rec_modified (rec_at (s_dir s') i) = le32 mtime.
+Proof. exact clock_behind_stamp. Qed.
+Print Assumptions C10_clock_behind_stamp.
+
 (* comments are refused on no-comment boards, on link entries (name L...), on marked-and-solved articles: the result
    is ErrNotPermitted and neither file changes *)
 Theorem C10_refusals : forall (c : cfg) name ct content clock mtime s i,
